@@ -254,13 +254,13 @@ func (se *SessionExecutor) setIntSessionVariable(name string, valueStr string) e
 	return nil
 }
 
-func (se *SessionExecutor) setStringSessionVariable(name string, valueStr string) error {
-	if strings.ToLower(valueStr) == mysql.KeywordDefault {
+func (se *SessionExecutor) setStringSessionVariable(name string, value interface{}) error {
+	if valueStr, ok := value.(string); ok && strings.ToLower(valueStr) == mysql.KeywordDefault {
 		se.sessionVariables.Delete(name)
 		return nil
 	}
 
-	return se.sessionVariables.Set(name, valueStr)
+	return se.sessionVariables.Set(name, value)
 }
 
 func (se *SessionExecutor) setUserSessionVariable(name string, valueStr interface{}) error {
@@ -1139,6 +1139,31 @@ func getVariableExprResult(v ast.ExprNode) string {
 	ctx := format.NewRestoreCtx(variableRestoreFlag, s)
 	v.Restore(ctx)
 	return strings.ToLower(s.String())
+}
+
+// isLiteralExpr tells whether the value of a SET assignment is one the proxy can take as it stands: a literal
+// (with a sign), a bare word or DEFAULT. Anything else (a function call, a variable, an operator) has a value only
+// the backend can compute.
+func isLiteralExpr(v ast.ExprNode) bool {
+	switch x := v.(type) {
+	case ast.ValueExpr, *ast.ColumnNameExpr, *ast.DefaultExpr:
+		return true
+	case *ast.UnaryOperationExpr:
+		_, ok := x.V.(ast.ValueExpr)
+		return ok
+	}
+	return false
+}
+
+// getStringVariableExprResult returns what a string variable is set to. For a literal it is the text without quotes
+// in lower case, as getVariableExprResult gives it; it is sent to the backend in quotes. The text of an expression in
+// quotes would make the backend store the expression's text instead of its value (SET v = CONCAT('a','b') gave
+// 'concat(a, b)'), so an expression is handed on as it is written, like the value of a user variable.
+func getStringVariableExprResult(v ast.ExprNode) interface{} {
+	if isLiteralExpr(v) {
+		return getVariableExprResult(v)
+	}
+	return getUserVariableExprResult(v)
 }
 
 // getUserVariableExprResult 将表达式节点还原为 SQL 字符串表示，并包装为 UserVariablesType 类型
